@@ -338,6 +338,10 @@ class StackPartition(Concat):
     def _lower(self):
         return
 
+    def _simplify_up(self, parent, dependents):
+        # The rules of Concat build a Concat from operands this class does not have
+        return
+
 
 class StackPartitionInterleaved(StackPartition):
     def _divisions(self):
